@@ -1,7 +1,7 @@
 """Per-property configuration of the driver (budgets, evidence texts)."""
 
 COMMON_ASSUME = [
-    "the simulated kernel (sim/src/kernel.rs) implements Linux pipe/poll/descriptor/process semantics as listed in DESIGN.md Appendix A",
+    "the simulated kernel (sim/src/kernel.rs) implements Linux pipe/poll/descriptor/process semantics as described in DESIGN.md 2.2; 21 micro-scenarios are compared with the real kernel on every run (conformance)",
     "interleaving at system-call granularity loses no behaviour: parent and children share only kernel objects",
     "child programs are closed scripts: a global deadlock is the library's",
 ]
@@ -136,7 +136,7 @@ MANIFEST_TEXT = {
     "C01": dict(
         text="Seeded search over child I/O behaviours, sizes around pipe capacities, pipe capacities and parent/child interleavings; a hang is a detected state (global deadlock of the simulated kernel, or 1000 parent calls without kernel state change) with a replayable schedule, not a timeout. Sampling, not proof.",
         design_ref="DESIGN.md §5 C01",
-        note="Trusts the simulated kernel's pipe/poll semantics (checked against the real kernel by the conformance self-test) and that scripts are closed. The Windows thread-based communicator is covered only if the commT family is listed in DESIGN §5.",
+        note="Trusts the simulated kernel's pipe/poll semantics (checked against the real kernel by the conformance self-test) and that scripts are closed. Every 5th run drives the thread-based (cfg(windows)) communicator extracted from the source by sim/build.rs, with simrt's rendezvous channel and threads as the only stubbed library-side dependency.",
         technique=TECH,
     ),
     "C02": dict(
